@@ -698,6 +698,21 @@ def run(run):
         for pv, order in plan:
             terminals = [('success',)] + ([DISCONNECTS[(i + j) % len(
                 DISCONNECTS)] for j in range(5 if thorough else 1)])
+            # ... and one whose text names the very version the client is
+            # using (a server that keeps a patch release apart: "Outdated
+            # client! Please use 1.16.5" to a 1.16.4 client with the same
+            # protocol number): reported like any other
+            import minecraft as _mc
+            own_names = [n_ for n_, p_ in
+                         _mc.RELEASE_MINECRAFT_VERSIONS.items() if p_ == pv]
+            if own_names and (i // max(1, len(terminals))) % 2 == 0:
+                who = ('client! Please use', 'server! I\'m still on')[i % 2]
+                nm_ = own_names[i % len(own_names)]
+                terminals.append((
+                    'outdated-own-version',
+                    '{"text":"Outdated %s %s"}' % (who, nm_),
+                    'VersionMismatch', nm_))
+                run.count('logins.outdated_naming_own_version')
             for terminal in terminals:
                 i += 1
                 if not run.mine(i):
